@@ -16,6 +16,10 @@ import (
 
 const eof rune = -1
 
+// maxParam is the largest value a CSI parameter can take. Larger values are
+// clamped to it
+const maxParam = 1<<31 - 1
+
 // https://vt100.net/emu/dec_ansi_parser
 //
 // parser is an implementation of Paul Flo Williams' VT500-series
@@ -321,6 +325,11 @@ func (p *Parser) csiDispatch(r rune) {
 			// All of our non ';' and ':' bytes are a digit.
 			ps *= 10
 			ps += int(b) - 0x30
+			if ps > maxParam {
+				// saturate instead of overflowing into a
+				// negative value
+				ps = maxParam
+			}
 		}
 	}
 	param = append(param, ps)
